@@ -1,6 +1,7 @@
 # C09 — file preamble and block parameters survive write -> read unchanged.
 import common, schema, refcbor
 THEOREMS = ["C09_descriptors_ok", "C09_roundtrip", "C09_roundtrip_any", "C09_roundtrip_phys", "C09_nonvacuous"]
+EXTRA_PROPERTY_FILES = ("Properties_format",)   # obligations over the regenerated Gen_format.v (translator/format.py)
 STRUCTS = ["FilePreamble", "BlockParameters", "StorageParameters", "StorageHints", "CollectionParameters"]
 
 def make_cases(sch, tier, rng):
